@@ -683,6 +683,7 @@ class choice_converters:
             else:
                 value = word.value
             flags[value.lower()] = False
+        possible_choices = frozenset(flags)
         if (master.optional is not None and not master.optional) or not is_plain_none(
             words=source_words
         ):
@@ -731,7 +732,7 @@ class choice_converters:
                             flag = True
                         else:
                             flag = False
-                    if flag and value.lower() not in flags:
+                    if flag and value.lower() not in possible_choices:
                         if ignore_errors:
                             continue
                         else:
